@@ -147,6 +147,29 @@ def c_defs(text):
     return out
 
 
+def c_structs(text):
+    """{name: [(type, field)]} of 'struct name {...}' and 'typedef struct [tag] {...} name;'"""
+    t = xrl.strip_comments(text)
+    t = re.sub(r"^[ \t]*#.*$", "", t, flags=re.M)
+    out = {}
+    for m in re.finditer(r"\b(typedef\s+)?struct\s*(\w*)\s*\{([^{}]*)\}\s*(\w*)\s*;", t):
+        fields = []
+        for decl in m.group(3).split(";"):
+            decl = " ".join(decl.split())
+            if not decl:
+                continue
+            parts = split_top(decl)
+            typ, name = c_arg(parts[0])
+            base = typ.rstrip("*")
+            fields.append((typ, name))
+            for extra in parts[1:]:
+                fields.append((base + "*" * extra.count("*"), extra.replace("*", "").strip()))
+        for nm in (m.group(2), m.group(4) if m.group(1) else ""):
+            if nm:
+                out[nm] = fields
+    return out
+
+
 def cclass(t):
     """coarse class of a C type: int double size_t void str strlist int* double* err** ptr ptr:<struct> struct:<name>"""
     base = re.sub(r"\b(const|struct|enum)\b", " ", t)
@@ -197,6 +220,7 @@ class CSide:
         # public prototypes, own parse (includes declarations that lost their XRL_EXTERN)
         self.public = {}
         self.struct_tags = set()
+        self.structs = {}
         inc = os.path.join(repo, "include")
         for f in sorted(os.listdir(inc)):
             if not (f.startswith("xraylib") and f.endswith(".h")):
@@ -205,6 +229,7 @@ class CSide:
             for n, p in c_decls(t).items():
                 p["header"] = f
                 self.public[n] = p
+            self.structs.update(c_structs(t))
             ts = xrl.strip_comments(t)
             self.struct_tags |= set(re.findall(r"\bstruct\s+([A-Za-z_]\w*)\s*\{", ts))
             self.struct_tags |= set(re.findall(r"\}\s*([A-Za-z_]\w*)\s*;", ts))
@@ -303,12 +328,15 @@ def lit_ulp(lit):
 
 
 def value_equal(cv, bv, lit=None):
+    """integers exactly; reals to the precision the binding writes, but never coarser than 1e-9 relative
+    (and never finer than what a double can hold)"""
     if isinstance(cv, int) and not isinstance(cv, bool):
         return isinstance(bv, (int, float)) and bv == cv
     tol = REL_TOL * abs(cv)
     u = lit_ulp(lit) if lit is not None else None
     if u is not None:
-        tol = max(tol, u * (1 + 1e-6))
+        tol = min(tol, u * (1 + 1e-6))
+    tol = max(tol, 4e-16 * abs(cv))
     return abs(bv - cv) <= tol
 
 
@@ -352,6 +380,35 @@ def check_complete(R, binding, have, where_file, wrapped_as=None):
                 R.st.violation("missing:%s:%s:%s" % (binding, fam, cn), dict(binding=binding, family=fam, name=cn, file=where_file),
                                expected="%s = %r exposed (defined in %s)" % (cn, R.C.val[cn], R.C.h.where[cn]),
                                got="not defined by the binding" + (" although it wraps %s" % used[0] if used else ""))
+
+
+def check_struct(R, binding, name, fields, where, compat):
+    """a struct/record/derived type that mirrors a C struct has the same fields in the same order.
+    fields = [(field name, kind)]; compat(kind, C class) decides type agreement"""
+    C = R.C
+    key = {norm_struct(re.sub(r"^_", "", n)): n for n in C.structs}
+    stem = re.sub(r"^[TP](?=[A-Z])", "", name)
+    cn = key.get(norm_struct(stem))
+    if cn is None and stem.endswith("C"):
+        cn = key.get(norm_struct(stem[:-1]))
+    if cn is None:
+        R.ignore(binding + "-type", name)
+        return
+    cf = C.structs[cn]
+    case = dict(binding=binding, struct=cn, binding_name=name, file=where[0], line=where[1])
+    R.cmp("struct:" + binding, case)
+    want = ", ".join("%s %s" % f for f in cf)
+    if len(fields) != len(cf):
+        R.st.violation("struct:%s:%s:fields" % (binding, cn), case, expected="%d fields: %s" % (len(cf), want), got="%d fields: %s" % (len(fields), ", ".join(f[0] for f in fields)))
+        return
+    bad = []
+    for i, ((fn, fk), (ct, cfn)) in enumerate(zip(fields, cf)):
+        if fn.lower() != cfn.lower():
+            bad.append("field %d is '%s', C has '%s'" % (i + 1, fn, cfn))
+        elif not compat(fk, cclass(ct)):
+            bad.append("field '%s': %s vs C %s" % (fn, fk, ct))
+    if bad:
+        R.st.violation("struct:%s:%s:layout" % (binding, cn), case, expected=want, got="; ".join(bad))
 
 
 def proto_violation(R, binding, fn, what, case, expected, got):
@@ -502,9 +559,10 @@ def fortran_parse(repo):
                 stmts += [(inc, l2, s2) for l2, s2 in f_statements(t2)]
             continue
         stmts.append((main, ln, s))
-    cpp, env, consts, binds, procs = {}, {}, [], [], []
+    cpp, env, consts, binds, procs, types = {}, {}, [], [], [], []
     stack = []
     in_type = False
+    cur_type = None
     for fl, ln, s in stmts:
         if s.startswith("#"):
             m = re.match(r"#\s*define\s+(\w+)\s+(.+)$", s)
@@ -518,11 +576,22 @@ def fortran_parse(repo):
             continue
         if re.match(r"^END\s*TYPE\b", s, re.I):
             in_type = False
+            cur_type = None
             continue
         if re.match(r"^TYPE\s*(,|::|\s+[A-Za-z_])", s, re.I) and not re.match(r"^TYPE\s*\(", s, re.I):
             in_type = True
+            cur_type = None
+            tm = re.match(r"^TYPE\s*,\s*BIND\s*\(\s*C\s*\)\s*::\s*(\w+)", s, re.I)
+            if tm:
+                cur_type = dict(name=tm.group(1), fields=[], file=fl, line=ln)
+                types.append(cur_type)
             continue
         if in_type:
+            if cur_type is not None and F_DECL.match(s):
+                d = f_decl(s)
+                if d:
+                    for en, dims in d[3]:
+                        cur_type["fields"].append((en, f_kind(d[0], d[1], d[2], dims, force_value=True)))
             continue
         m = F_PARAM.match(s)
         if m and not stack:
@@ -547,7 +616,7 @@ def fortran_parse(repo):
                 base, spec, attrs, ents = d
                 for en, dims in ents:
                     stack[-1]["decl"].setdefault(en, (base, spec, attrs, dims))
-    return dict(consts=consts, binds=binds, procs=procs, file=main)
+    return dict(consts=consts, binds=binds, procs=procs, types=types, file=main)
 
 
 def check_fortran(R):
@@ -638,6 +707,8 @@ def check_fortran(R):
         if bad:
             proto_violation(R, "fortran", n, "user-argtype", case, c_sig(p), "; ".join(bad))
     check_complete(R, "fortran", have, F["file"])
+    for t in F["types"]:
+        check_struct(R, "fortran", t["name"], t["fields"], (t["file"], t["line"]), f_compat)
 
 
 # ====================================================================================================== Pascal
@@ -794,6 +865,28 @@ def pas_functions(text, fl):
     return out
 
 
+def pas_records(text, fl):
+    s = pas_strip(text)
+    out = []
+    for m in re.finditer(r"\b(\w+)\s*=\s*(?:packed\s+)?record\b(.*?)\bend\s*;", s, re.I | re.S):
+        fields = []
+        for decl in m.group(2).split(";"):
+            dm = re.match(r"^\s*([\w\s,]+?)\s*:\s*(.+?)\s*$", decl, re.S)
+            if not dm:
+                continue
+            typ = " ".join(dm.group(2).split())
+            if re.match(r"^array\s+of\b", typ, re.I) or typ.startswith("^"):
+                k = "ptr"
+            elif typ.lower() == "xrl_error_code":
+                k = "int"
+            else:
+                k = pas_kind(typ)
+            for nm in dm.group(1).split(","):
+                fields.append((nm.strip(), k))
+        out.append(dict(name=m.group(1), fields=fields, file=fl, line=lineno(s, m.start())))
+    return out
+
+
 def check_pascal(R):
     C, st = R.C, R.st
     files = ["pascal/xraylib.pas", "pascal/xraylib_const.pas", "pascal/xraylib_iface.pas", "pascal/xraylib_impl.pas"]
@@ -864,6 +957,10 @@ def check_pascal(R):
             if bad:
                 proto_violation(R, "pascal", n, "user-argtype", case, c_sig(p), "; ".join(bad))
     check_complete(R, "pascal", have, "pascal/xraylib_const.pas")
+    for f in files:
+        if texts[f] is not None:
+            for r in pas_records(texts[f], f):
+                check_struct(R, "pascal", r["name"], r["fields"], (r["file"], r["line"]), pas_compat)
     # soname of the imported library
     t = texts["pascal/xraylib.pas"]
     if t is not None:
@@ -875,9 +972,10 @@ def check_pascal(R):
 
 def cython_parse(text):
     """-> (functions {name: dict}, constants [dict]) of the 'cdef extern from "xraylib*.h"' blocks"""
-    funcs, consts = {}, []
+    funcs, consts, structs = {}, [], []
     block_hdr, block_indent = None, None
     skip_indent = None
+    cur_struct = None
     for ln, raw in enumerate(text.split("\n"), 1):
         line = raw.split("#")[0].rstrip()
         if not line.strip():
@@ -896,9 +994,22 @@ def cython_parse(text):
             block_indent = indent
         if skip_indent is not None:
             if indent > skip_indent:
+                if cur_struct is not None:
+                    for piece in split_top(s):
+                        tt, nm = c_arg(piece)
+                        if nm:
+                            cur_struct["fields"].append((nm, cclass(tt)))
                 continue
             skip_indent = None
+            cur_struct = None
+        sm = re.match(r"^(?:cdef|ctypedef)\s+struct\s+(\w+)\s*:$", s)
+        if sm:
+            cur_struct = dict(name=sm.group(1), fields=[], line=ln, indent=indent)
+            structs.append(cur_struct)
+            skip_indent = indent
+            continue
         if re.match(r"^(cdef|ctypedef)\s+(enum|struct|union)\b.*:$", s) or s.endswith(":"):
+            cur_struct = None
             skip_indent = indent
             continue
         m = re.match(r"^(.*?)\b([A-Za-z_]\w*)\s*\((.*)\)\s*(?:nogil|except\s*\S+)?$", s)
@@ -912,7 +1023,7 @@ def cython_parse(text):
         m = re.match(r'^([\w \*]+?)\s*\b([A-Za-z_]\w*)(?:\s+"(\w+)")?$', s)
         if m:
             consts.append(dict(type=" ".join(m.group(1).split()), name=m.group(2), cname=m.group(3) or m.group(2), line=ln))
-    return funcs, consts
+    return funcs, consts, structs
 
 
 def check_cython(R):
@@ -922,7 +1033,7 @@ def check_cython(R):
     if pxd is None:
         st.cls("binding-absent:cython")
         return
-    funcs, consts = cython_parse(pxd)
+    funcs, consts, structs = cython_parse(pxd)
     have = set()
     pxd_names = set()
     for c in consts:
@@ -959,6 +1070,8 @@ def check_cython(R):
         if cclass(f["ret"]) != cclass(p["ret"]):
             proto_violation(R, "cython", name, "ret", case, "returns " + p["ret"], "returns " + f["ret"])
     check_complete(R, "cython", have, pxd_f)
+    for t in structs:
+        check_struct(R, "cython", t["name"], t["fields"], (pxd_f, t["line"]), lambda k, ck: k == ck)
     # ---- the .pyx layer
     pyx = read(C.repo, pyx_f)
     if pyx is None:
@@ -1512,10 +1625,11 @@ def run(ctx):
                 "(integers exactly, reals to the precision written, at least 1e-9 relative); every macro of the six families (shells, lines incl. "
                 "groups and Siegbahn aliases, Coster-Kronig, Auger, NIST compounds, radionuclides) must be defined by every binding that publishes "
                 "constants; every extern/BIND(C)/external/_XRL_FUNCTION/DLM/def/method declaration that carries a C function name is compared with "
-                "the C prototype (name, arity, int/double/string/pointer class of every argument and of the result); every function declared in "
+                "the C prototype (name, arity, int/double/string/pointer class of every argument and of the result); every BIND(C) type / record / "
+                "struct that mirrors a C struct is compared field by field; every function declared in "
                 "include/xraylib*.h must be in `nm -D --defined-only` of a fresh libxrl.so; every file stating a version must state "
-                "XRAYLIB_MAJOR.MINOR.MICRO. non-trivial = one (file, constant) / (file, family macro) / (file, prototype) / (header function, "
-                "export) / (file, version) pair actually compared; all pairs are distinct by construction")
+                "XRAYLIB_MAJOR.MINOR.MICRO. non-trivial = one (file, constant) / (file, family macro) / (file, prototype) / (file, struct) / "
+                "(header function, export) / (file, version) pair actually compared; all pairs are distinct by construction")
     ctx.exhaustive = True
     b = ctx.build("plain", "A")
     R = compare(ctx, ctx.stats, b["lib"])
@@ -1527,7 +1641,7 @@ def run(ctx):
     ctx.extra["version"] = getattr(R, "version", None)
     ctx.extra["constants_compared"] = R.consts
     ctx.extra["functions_wrapped"] = {k: len(v) for k, v in sorted(R.wrapped.items())}
-    ctx.extra["public_functions_not_wrapped"] = {k: sorted(set(numeric) - v) for k, v in sorted(R.wrapped.items())}
+    ctx.extra["public_functions_not_wrapped"] = {k: sorted(set(numeric) - v) for k, v in sorted(R.wrapped.items()) if k != "swig"}
     ctx.extra["families_not_published"] = R.unpublished
     ctx.extra["names_ignored_not_in_C"] = {k: sorted(v)[:80] for k, v in sorted(R.extra.items())}
     ctx.extra["exported_not_declared"] = sorted(e for e in getattr(R, "exported", set()) if e not in C.public)[:200]
@@ -1539,7 +1653,8 @@ def run(ctx):
         "(BIND(C), external name, .pxd) has to carry the complete C prototype",
         "names a binding defines that C does not define are ignored; Fortran/Pascal/IDL names are matched case-insensitively",
         "generated bindings (SWIG output, Lua/Ruby/PHP/Perl/.NET) are not lexed: src/xraylib.i %includes the C headers themselves",
-        "struct/record field layouts are not compared",
+        "derived types / records / structs that mirror a C struct are compared field by field (order, name, class); Pascal 'array of T' "
+        "fields and enum fields are taken as pointer and int",
     ]
 
 
